@@ -21,14 +21,16 @@ var anchored = []string{"pkg/dhcp/server.go", "pkg/dhcp/pool.go", "pkg/dhcpv6/se
 
 func TestMain(m *testing.M) {
 	run = vk.Start("C02", "exploration")
-	run.Rule("message histories from k<=4 clients against the real DHCPv4 / DHCPv6 handlers on tiny pools (v4 /30 /29 /28, v6 /126 /125 and 2-8 delegated prefixes), interleaved with virtual-time steps {lease/2, lease+1ns, 61 s cleanup tick; 59 s and 1 s in scenarios and walks}: (1) directed minimal scenarios, (2) breadth-first exhaustive exploration - a 14-symbol core alphabet (2 clients x {DISCOVER/SOLICIT, REQUEST, renew, RELEASE, DECLINE, rapid-commit} + hostile REQUEST for a foreign address / the gateway + time) to depth 5 (quick) / 6 (thorough) and the full alphabet (also REQUEST for network / broadcast / out-of-pool / never-offered addresses, init-reboot, DECLINE and RELEASE of foreign addresses, INFORM, REBIND, CONFIRM, wrong server-id, RENEW naming a foreign value) to depth 3 / 4, a history being extended only if its end state (fingerprint: lease table + circuit-id index + pool snapshot + reference table + client memory + time offsets) is new, (3) seeded random walks of 30-200 steps with 3-4 clients and per-message transport {direct, relayed, relayed+option 82}; every history ends with a 61 s step and a drain of the pool by fresh clients (once per distinct end state); (4) the v4 handlers called from 4-8 goroutines together with the expiry sweep under -race, and late renewals racing the sweep over 800 lapsed leases (child process, so that a crash is a verdict). A case = one distinct history. non-trivial = distinct history containing a REQUEST/RENEW whose address was at that moment bound or offered to a different client, or a request for an own binding after its expiry / release; concurrent part: a run in which an address changed owner or both orders of sweep and renewal occurred")
+	run.Rule("message histories from k<=4 clients against the real DHCPv4 / DHCPv6 handlers on tiny pools (v4 /30 /29 /28, v6 /126 /125 and 2-8 delegated prefixes), interleaved with virtual-time steps {lease/2, lease+1ns, 61 s cleanup tick; 59 s and 1 s in scenarios and walks}: (1) directed minimal scenarios, (2) breadth-first exhaustive exploration - a 15-symbol core alphabet (2 clients x {DISCOVER/SOLICIT, REQUEST, renew, RELEASE, DECLINE, rapid-commit} + hostile REQUEST for a foreign address / the gateway, DECLINE naming the other client's address + time) and an 18-symbol DHCPv4 / DHCPv6 decline/release alphabet (DECLINE and RELEASE of the own value and naming an address leased to / offered but not acknowledged to the other client, DECLINE of a free address, REQUEST init-reboot / selecting / renew naming the other client's address, pool cycling, one time step) to depth 5 / 6 (DHCPv4) and 4 / 5 (DHCPv6), the core alphabet to depth 5 (quick) / 6 (thorough) and the full alphabet (also REQUEST for network / broadcast / out-of-pool / never-offered addresses, init-reboot, DECLINE and RELEASE naming free and out-of-pool values and, in DHCPv6, own values under unknown IAIDs, INFORM, REBIND, CONFIRM, wrong server-id, RENEW / REQUEST naming a foreign value) to depth 3 / 4; a pool-cycling step = k fresh clients DISCOVER (and REQUEST) / SOLICIT+REQUEST / SOLICIT+rapid-commit until the server has nothing left to hand out (k <= pool size + 1, so every free-list position is visited; pools have 2-14 usable values) and then RELEASE what they got, a history being extended only if its end state (fingerprint: lease table + circuit-id index + pool snapshot + reference table + client memory + time offsets) is new, (3) seeded random walks of 30-200 steps with 3-4 clients and per-message transport {direct, relayed, relayed+option 82}; every history ends with a 61 s step and a drain of the pool by fresh clients (once per distinct end state); (4) the v4 handlers called from 4-8 goroutines together with the expiry sweep under -race, and late renewals racing the sweep over 800 lapsed leases (child process, so that a crash is a verdict). A case = one distinct history. non-trivial = distinct history containing a REQUEST/RENEW whose address was at that moment bound or offered to a different client, or a request for an own binding after its expiry / release; concurrent part: a run in which an address changed owner or both orders of sweep and renewal occurred")
 	run.Assume("client identity is the MAC (v4) / DUID (v6); a circuit-id identifies exactly one client (two MACs never share an option-82 circuit-id)")
 	run.Assume("local-pool mode: no Nexus client, HTTP allocator, RADIUS, QoS or NAT manager is attached; the DHCPv6 server uses its legacy AddressPool / PrefixPool (not the integrated allocator)")
 	run.Assume("a binding enters the reference table only through an observed ACK / Reply carrying the value; its expiry is the reply's own lease time / valid lifetime (unexpired = now < expiry); replies are decoded with the insomniacslk/dhcp library, not with the code under test")
 	run.Assume("an OFFER / Advertise counts as outstanding until ACK, NAK, RELEASE, DECLINE or one lease time (DESIGN 5b); an offer of the address the client is bound to at that moment adds nothing to that binding (an OFFER does not extend a lease); the property does not bound how long a server may keep an offered address reserved, so a value that was re-offered to its former holder after the binding lapsed creates no 'available again' obligation")
 	run.Assume("'available again' is judged by draining the pool with fresh clients after expiry + one cleanup tick (v4: the real cleanup loop runs on the virtual clock; v6: any reclaim reachable from the message handlers; a reclaim that lived only in goroutines started by Start() would not be observed - none exists)")
 	run.Assume("a DECLINE quarantines the value only if the decliner held it or was offered it (DESIGN 5b); a DHCPv6 Decline names addresses only, a delegated prefix of the same client stays bound")
+	run.Assume("the value named in a DECLINE / RELEASE / REQUEST is classified (own-leased, own-offered, leased-to-other, offered-to-other, free, declined, outside-pool ...) from the reference table only; a DECLINE or RELEASE that does not name the sender's own value (or names it under an IAID the server never gave it) creates no obligation and the server may keep or end the sender's own binding: which it did is read from its lease table right after the message (kept = the binding goes on and keeps being judged, ended = nothing further is required); an OFFER / Advertise of a value on which another client holds an unexpired acknowledged binding is a violation (offer-unique), an OFFER of a value that is merely offered to another client is not (a server need not reserve what it offers; judged when one of them is acknowledged)")
 	run.Assume("after the first violation on a value the remaining clauses are not judged on that value in that history; all other values keep being judged")
+	run.Assume("every DHCPv6 SOLICIT / REQUEST / RENEW / REBIND carries one IA per configured kind (IA_NA and IA_PD in 'both' mode), so a Reply renews all of a client's values together; only RELEASE and DECLINE are also sent with a single IA")
 	run.Assume("DHCPv6 handlers are driven sequentially (receiveLoop is single-threaded); only DHCPv4 handlers are called concurrently (server4 dispatches one goroutine per packet)")
 	if childMode() {
 		// the concurrent parts run in a child process (a crash of the code under test must not take the
@@ -37,11 +39,59 @@ func TestMain(m *testing.M) {
 		writeChildReport()
 		os.Exit(code)
 	}
+	setFloors()
 	code := m.Run()
 	run.JudgeRaces(anchored)
+	// distinct observation sets that have a floor are mirrored into counters (floors are defined on counters)
+	run.Count("distinct_message_classes", run.DistinctCount("message_classes"))
+	run.Count("distinct_cycle_episodes", run.DistinctCount("cycle_episodes"))
 	ec := run.Finish()
 	if code != 0 && ec == 0 {
 		ec = 2
 	}
 	os.Exit(ec)
+}
+
+// setFloors: the run is inconclusive unless every class of client message the property quantifies over
+// (what a DECLINE / RELEASE / REQUEST names, by protocol) and complete cycles of the free list after
+// such messages were actually observed. The numbers are well below what the quick tier observes at
+// any seed (the exhaustive part does not depend on the seed).
+func setFloors() {
+	for _, c := range []string{"own-leased", "own-offered", "leased-to-other", "offered-to-other", "free", "outside-pool"} {
+		run.Floor("v4_DECLINE_names_"+c, 80)
+	}
+	for _, c := range []string{"own-leased", "leased-to-other", "offered-to-other", "free", "outside-pool"} {
+		run.Floor("v4_RELEASE_names_"+c, 80)
+	}
+	for _, mode := range []string{"init-reboot", "selecting", "renew"} {
+		run.Floor("v4_REQUEST-"+mode+"_names_leased-to-other", 80)
+		run.Floor("v4_REQUEST-"+mode+"_names_offered-to-other", 60)
+	}
+	for _, msg := range []string{"DECLINE", "RELEASE"} {
+		run.Floor("v6_"+msg+"_names_own-leased", 150)
+		run.Floor("v6_"+msg+"_names_leased-to-other", 60)
+		run.Floor("v6_"+msg+"_names_offered-to-other", 20)
+		run.Floor("v6_"+msg+"_names_free", 150)
+		run.Floor("v6_"+msg+"_names_outside-pool", 50)
+		run.Floor("v6_"+msg+"_names_unknown-iaid-own-leased", 15)
+	}
+	run.Floor("v6_REQUEST_names_leased-to-other", 150)
+	run.Floor("v6_RENEW_names_leased-to-other", 100)
+	run.Floor("free_list_full_cycles", 2000)
+	run.Floor("free_list_full_cycles_discover", 60)
+	run.Floor("free_list_full_cycles_discover-request", 150)
+	run.Floor("free_list_full_cycles_solicit-request", 150)
+	run.Floor("free_list_full_cycles_rapid-commit", 80)
+	run.Floor("free_list_full_cycles_drain", 1500)
+	run.Floor("free_list_fully_cycled_after_decline_or_release", 1500)
+	for k, n := range map[string]int64{
+		"DECLINE:own-leased": 200, "DECLINE:own-offered": 200, "DECLINE:leased-to-other": 50, "DECLINE:offered-to-other": 30, "DECLINE:free": 200, "DECLINE:outside-pool": 40,
+		"RELEASE:own-leased": 800, "RELEASE:leased-to-other": 100, "RELEASE:offered-to-other": 60, "RELEASE:free": 150, "RELEASE:outside-pool": 50,
+		"REQUEST-init-reboot:leased-to-other": 60, "REQUEST-selecting:leased-to-other": 25, "REQUEST-renew:leased-to-other": 25, "REQUEST:leased-to-other": 50,
+	} {
+		run.Floor("cycled_after_"+k, n)
+	}
+	run.Floor("available_again_released_value_handed_out_again", 2000)
+	run.Floor("distinct_message_classes", 60)
+	run.Floor("distinct_cycle_episodes", 300)
 }
